@@ -43,4 +43,25 @@ var profiles = map[string]profile{
 		},
 		AddDirs: []string{"common"},
 	},
+	// chainsim: N whole nodes on a discrete-event loop. pkg/p2p is replaced by the stub; clocks, randomness and
+	// request contexts are simulated; fork-join helpers run in call order so that results do not depend on the Go scheduler.
+	"chainsim": {
+		Files: map[string]fileRule{
+			"pkg/consensus/execute.go":                {Swap: map[string]string{"time": pTime}, GoInline: true}, // the publish goroutine of processValidated runs in place
+			"pkg/consensus/verify.go":                 {Swap: map[string]string{"time": pTime}},
+			"pkg/consensus/certificate.go":            {Swap: map[string]string{"golang.org/x/sync/errgroup": pErrgroup}},
+			"pkg/consensus/forkchoice/fork_choice.go": {Swap: map[string]string{"time": pTime}},
+			"pkg/consensus/sync/sync.go":              {Swap: map[string]string{"time": pTime}},
+			"pkg/consensus/sync/request.go":           {Swap: map[string]string{"time": pTime, "context": pCtx}},
+			"pkg/consensus/sync/download.go":          {Swap: map[string]string{"go.uber.org/ratelimit": pRatelimit}},
+			"pkg/consensus/sync/peer_selection.go":    {Swap: map[string]string{"math/rand": pRand}},
+			"pkg/consensus/sync/block_sync.go":        {GoInline: true},
+			"pkg/consensus/sync/fast_sync.go":         {GoInline: true},
+			"pkg/blockchain/data_access.go":           {Swap: map[string]string{"golang.org/x/sync/errgroup": pErrgroup}},
+			"pkg/generator/generator.go":              {Swap: map[string]string{"time": pTime}},
+			"pkg/txpool/txpool.go":                    {Swap: map[string]string{"time": pTime}},
+		},
+		AddDirs:    []string{"common", "chainsim"},
+		ReplacePkg: map[string]string{"pkg/p2p": "chainstub/p2p"},
+	},
 }
